@@ -403,7 +403,11 @@ func init() {
 			var r res
 			defer func() {
 				if p := recover(); p != nil {
-					r.panic = fmt.Sprint(p)
+					if e, ok := p.(error); ok {
+						r.panic = "error: " + errText(e)
+					} else {
+						r.panic = fmt.Sprint(p)
+					}
 					r.site = panicSite(string(debug.Stack()))
 					r.v, r.err = nil, nil
 				}
@@ -425,13 +429,15 @@ func init() {
 				out["msg"] = trunc(r.panic)
 			case r.err != nil:
 				out["st"] = "err"
-				out["msg"] = trunc(r.err.Error())
+				out["msg"] = errText(r.err)
 			default:
 				out["st"] = "ok"
 				out["effects"] = eff.snapshot()
 				cls, names := map[string]bool{}, map[string]bool{}
 				observe(ctx, r.v, 3, 0, cls, names)
-				delete(cls, "none")
+				for _, k := range []string{"none", "evalvalue", "evaleval", "evaluator"} {
+					delete(cls, k) // the //eval.* functions are modelled by their behaviour, not by a class
+				}
 				out["classes"] = keys(cls)
 				out["natives"] = keys(names)
 				switch r.v.(type) {
@@ -454,6 +460,27 @@ func init() {
 		}
 		return out
 	})
+}
+
+func init() {
+	// c18table: the safe-library inventory as JSON (the same rows as coq/Gen/Stdlib.v)
+	register("c18table", func(in map[string]any) map[string]any {
+		rows := []map[string]any{}
+		for _, e := range walkLib(syntax.SafeStdScopeTuple(), nil, nil, 0) {
+			if e.kind == "data" {
+				continue
+			}
+			rows = append(rows, map[string]any{"path": e.path, "kind": e.kind, "class": e.class})
+		}
+		return map[string]any{"safe": rows}
+	})
+}
+
+// errText names the error type only: formatting a wbnf parse failure can take
+// minutes of CPU (observed: 95 s for a failing macro body), and C18 never
+// compares error texts.
+func errText(err error) string {
+	return fmt.Sprintf("%T", err)
 }
 
 func trunc(s string) string {
